@@ -179,7 +179,8 @@ func c04closeVerdict(c *Ctx, r *Report, rule string) {
 			return dependsOn(v, loadOf(".header.crc", fr)) && dependsOn(v, callOf("lzhuf.crcWriter.Sum", fr))
 		}, true},
 		{"size (header.size vs decoded position)", func(v ssa.Value, fr *ipFrame) bool {
-			return dependsOn(v, loadOf(".header.size", fr)) && dependsOn(v, loadOf(".state.pos", fr))
+			// ip_j3.go: either operand may be handed out by an accessor of the same reader
+			return vd.j3DependsOnLoad(v, ".header.size", fr, 0) && vd.j3DependsOnLoad(v, ".state.pos", fr, 0)
 		}, false},
 	}
 	viaOf := func(lit g7Lit, via string) string {
